@@ -5,6 +5,6 @@ sys.path.insert(0, os.path.dirname(os.path.abspath(__file__)))
 import props
 mods = []
 for p in props.PROPS.values():
-    for m in list(p['modules']) + list(p.get('srcgen', {}).values()):
+    for m in list(p['modules']) + list(p.get('srcgen', {}).values()) + list((p.get('capstones') or {}).keys()):
         if m not in mods: mods.append(m)
 print(' '.join(['driver'] + mods + ['SlacProps.SourceSpec']))
